@@ -445,7 +445,7 @@ def run_case(case):
                     pass
             for th in sched.threads.values():
                 if th.thread is not None:
-                    th.thread.join(2)
+                    th.thread.join(5)
         errors = []
         for e in (secnode.errors if secnode is not None else []):
             if e.startswith('  '):
@@ -643,8 +643,8 @@ def oracle(case, obs):
     if obs['outcome'] not in ('ready', 'timeout', 'exit'):
         fail('leaked-exception', f'_processCfg raised {obs["outcome"]}')
         return fails
-    if obs['leaked_threads']:
-        fail('poll-thread-not-stopped', f'poll threads {obs["leaked_threads"]} still alive after the case')
+    if obs['leaked_threads'] and obs['outcome'] in ('ready', 'timeout') and not obs['recursion']:
+        fail('poll-thread-not-stopped', f'poll threads {obs["leaked_threads"]} still alive after shutdown_modules')
     pos = {}
     for n, e in enumerate(log):
         pos.setdefault(tuple(e[:2]) if e[0] != 'see' else ('see', e[1], e[2]), []).append(n)
@@ -669,6 +669,11 @@ def oracle(case, obs):
                  [u for u, _ in bad])
     if obs['outcome'] == 'exit' and not obs['errors']:
         fail('exit-without-error', 'node refused to start without reporting an error')
+    if obs['recursion']:
+        # the log of such a run is truncated; only the outcome is judged (and only a cyclic configuration may end so)
+        if not cyclic:
+            fail('recursion-without-cycle', 'RecursionError reported although the attachments are acyclic')
+        return fails
 
     # (1) early -> init -> start, exactly once, in that order
     if not cyclic:
